@@ -55,8 +55,11 @@ def u_core_stab_maxabs(U):
         if o.kind != 'return':
             U.post('no-exception', p, False)
             continue
-        ok = isinstance(o.value, VTuple) and len(o.value.items) == 2 and isinstance(o.value.items[0], VArr) and o.value.items[0].t is not None \
-            and len(p.ghost.get('maxabs', [])) == 1
+        if len(p.ghost.get('maxabs', [])) != 1:
+            # the contract is keyed to ONE evaluation of `np.max(np.abs(G))` (hook stab2_maxabs); if the source computes the
+            # max-modulus in another way (e.g. `np.abs(G).max()`) the hook has not seen it: the contract does not talk about this code
+            raise M.ContractMismatch('core_stab: the max-modulus of the input is not computed by one np.max(np.abs(.)) call')
+        ok = isinstance(o.value, VTuple) and len(o.value.items) == 2 and isinstance(o.value.items[0], VArr) and o.value.items[0].t is not None
         U.post('returns-array-and-exponent-after-one-max-modulus', p, z3.BoolVal(ok))
         if not ok:
             continue
